@@ -120,6 +120,7 @@ type e1Result struct {
 	Spec        e1Spec         `json:"spec"`
 	Execs       int            `json:"execs"`
 	Redundant   int            `json:"redundant"`
+	Merged      int            `json:"merged"`
 	Points      int            `json:"points"`
 	MaxPoints   int            `json:"max_points"`
 	States      int            `json:"states"`
@@ -313,6 +314,17 @@ func damageStream(stream []byte, ks *kzStream, j int, kind string) ([]byte, erro
 func flipBit(b []byte, bit int)       { b[bit>>3] ^= 0x80 >> uint(bit&7) }
 func setBit(b []byte, bit int, v int) { b[bit>>3] = b[bit>>3]&^(0x80>>uint(bit&7)) | byte(v)<<uint(7-bit&7) }
 
+// e1Obs folds an API call result into the scheduler's observation hash (cache mode key).
+func e1Obs(n int, failed bool) {
+	if s := vcoop.Active(); s != nil {
+		v := uint64(n+2) * 2
+		if failed {
+			v++
+		}
+		s.ObsHash = (s.ObsHash ^ v) * 1099511628211
+	}
+}
+
 // runEnc drives one Writer; returns the call log and sink.
 func e1DriveEnc(sp *e1Spec, p *e1Prep, mo *e1Monitor, sk *memSink) (calls []callRec, panicked string) {
 	defer func() {
@@ -332,12 +344,14 @@ func e1DriveEnc(sp *e1Spec, p *e1Prep, mo *e1Monitor, sk *memSink) (calls []call
 		mo.curCall = len(calls)
 		n, err := w.Write(b)
 		calls = append(calls, callRec{"Write", n, err != nil, false})
+		e1Obs(n, err != nil)
 		return err == nil
 	}
 	doClose := func() bool {
 		mo.curCall = len(calls)
 		err := w.Close()
 		calls = append(calls, callRec{"Close", 0, err != nil, false})
+		e1Obs(-1, err != nil)
 		return err == nil
 	}
 	ok := true
@@ -403,6 +417,7 @@ func e1DriveDec(sp *e1Spec, p *e1Prep, mo *e1Monitor) (out []byte, calls []callR
 		n, err := r.Read(buf)
 		out = append(out, buf[:n]...)
 		calls = append(calls, callRec{"Read", n, err != nil && err != io.EOF, err == io.EOF})
+		e1Obs(n, err != nil)
 		if err == io.EOF {
 			break
 		}
@@ -420,8 +435,14 @@ func e1DriveDec(sp *e1Spec, p *e1Prep, mo *e1Monitor) (out []byte, calls []callR
 }
 
 // e1RunOnce runs the scenario once under choice prefix `prefix`.
+var e1Visited map[uint64]struct{}
+
 func e1RunOnce(sp *e1Spec, preps []*e1Prep, prefix []int, sleepInit map[int]bool, useSleep, keepEvents bool) *e1Exec {
 	s := vcoop.New(prefix)
+	if sp.Mode == "cache" && !keepEvents {
+		s.UseCache = true
+		s.Visited = e1Visited
+	}
 	s.UseSleep = useSleep
 	s.SleepInit = sleepInit
 	if useSleep && sleepInit == nil {
@@ -687,7 +708,12 @@ func (x *e1Explorer) explore(prefix []int, bound int, sleepInit map[int]bool) {
 			pre++
 		}
 	}
-	for i := len(prefix); i < len(pts); i++ {
+	last := len(pts)
+	if s.MergeAt >= 0 {
+		last = s.MergeAt
+		x.res.Merged++
+	}
+	for i := len(prefix); i < last; i++ {
 		pt := pts[i]
 		if pt.Enabled < 2 {
 			continue
@@ -755,7 +781,8 @@ func e1Explore(sp *e1Spec) *e1Result {
 	for _, o := range sp.Oracles {
 		x.oracle[o] = true
 	}
-	if sp.Mode == "sleep" {
+	if sp.Mode == "sleep" || sp.Mode == "cache" {
+		e1Visited = map[uint64]struct{}{}
 		x.explore(nil, -1, nil)
 		if !x.stop {
 			res.BoundDone = -1
@@ -919,7 +946,9 @@ func e1Summary(c *Ctx, results []*e1Result) {
 	var rows []row
 	for _, r := range results {
 		bd := any("all interleavings (sleep sets, no preemption bound)")
-		if r.Spec.Mode != "sleep" {
+		if r.Spec.Mode == "cache" {
+			bd = "all interleavings (state-caching DFS, no preemption bound)"
+		} else if r.Spec.Mode != "sleep" {
 			bd = fmt.Sprintf("all interleavings with <= %d preemptions", r.BoundDone)
 			if r.Spec.Bound < 0 {
 				bd = "all interleavings (plain DFS, no bound)"
